@@ -96,6 +96,8 @@ fn ll_cell(med: Med, ver: Ver) -> Cell {
         prefix: Prefix::NoPrefix,
         auto_first: None,
         layout: Layout::Same2,
+        routes: RouteCfg::DefaultForeign,
+        any_ip: false,
     }
 }
 
